@@ -279,6 +279,12 @@ def check_edge(case, rec):
         tree = fresh_parser().parse(text)
     except SyntaxError:
         rec.label("edge_rejected:" + case["edge"])
+        if case["edge"] == "huge_int" and case["sign"] == "+":
+            try:
+                fresh_parser().parse(text.replace("+1", "1", 1))
+            except SyntaxError:
+                return []
+            return [Failure("edge:huge_int|sign_decides_acceptance", "%d digits: refused with a plus sign, accepted without" % case["digits"])]
         return []
     except Exception as exc:
         return [Failure("edge:%s|raises:%s" % (case["edge"], type(exc).__name__), "%r -> %r" % (text[:80], exc))]
@@ -291,6 +297,13 @@ def check_edge(case, rec):
         return [Failure("edge:%s|delivered_as:%s" % (case["edge"], type(got).__name__),
                         "%s... parsed to %s" % (text[:60], shown[:60] + ("..." if len(shown) > 60 else "")))]
     rec.label("edge_accepted:" + case["edge"])
+    if case["edge"] == "huge_int" and case["sign"] == "+":
+        # a plus sign does not add a digit: the numeral is accepted exactly when the same digits without a sign are
+        try:
+            fresh_parser().parse(text.replace("+1", "1", 1))
+            return []
+        except SyntaxError:
+            return [Failure("edge:huge_int|sign_decides_acceptance", "%d digits: accepted with a plus sign, refused without" % case["digits"])]
     return []
 
 
